@@ -22,7 +22,7 @@ import numpy as np
 
 import common
 
-THEOREMS = ['C06_atomic', 'C06_classifier', 'C06_atomic_classified', 'C06_legacy_unsafe']
+THEOREMS = ['C06_atomic', 'C06_classifier', 'C06_atomic_classified', 'C06_legacy_unsafe', 'C06_hardlink_unsafe']
 MODULE = 'NautilusVerif.Properties.C06'
 FILES = ['nautilus/sampler.py', 'nautilus/bounds/nautilus.py', 'nautilus/bounds/union.py']
 HERE = os.path.dirname(os.path.abspath(__file__))
@@ -30,7 +30,7 @@ SYSCALLS = ('openat,open,creat,write,pwrite64,writev,pwritev,pwritev2,sendfile,c
             'fallocate,close,unlink,unlinkat,rename,renameat,renameat2,link,linkat,symlink,symlinkat,access,faccessat,'
             'faccessat2,dup,dup2,dup3,mmap')
 MUTATING = ('write', 'pwrite64', 'writev', 'pwritev', 'pwritev2', 'ftruncate', 'fallocate')
-KILLSET = 'openat,pwrite64,write,ftruncate,sendfile,copy_file_range,close,unlink,unlinkat,rename,renameat,renameat2'
+KILLSET = 'openat,pwrite64,write,ftruncate,sendfile,copy_file_range,close,unlink,unlinkat,rename,renameat,renameat2,link,linkat'
 
 
 def strace_cmd(ck, out, extra=()):
@@ -118,6 +118,11 @@ def parse_trace(path, ck):
             if strs and strs[0] == ck:
                 ops.append('o99,0,110')       # a path-based truncation of the checkpoint: an open with O_TRUNC
                 ops.append('c99')
+            else:
+                continue
+        elif name in ('link', 'linkat') and len(strs) >= 2 and strs[0] in (ck, ck + '.tmp') and strs[1] in (ck, ck + '.tmp'):
+            if ret == '0':
+                ops.append('l%d,%d' % (pid_of(strs[0]), pid_of(strs[1])))
             else:
                 continue
         elif name in ('link', 'linkat', 'symlink', 'symlinkat', 'dup', 'dup2', 'dup3', 'mmap'):
